@@ -135,7 +135,7 @@ PROPS["C14"] = {
     "level": "proof",
     "streams": ["purity"],
     # the injections of the cache stream carry repeatability / snapshot observations (clause api-consistency)
-    "secondary": {"cache": {"ops": ["inject"], "clauses": "not repeatable|served other requests|re-used OCI spec|reload its directories|same failing request twice"}},
+    "secondary": {"cache": {"ops": ["inject"], "clauses": "not repeatable|served other requests|re-used OCI spec|reload its directories|same failing request twice|which no Spec defines"}},
     "trusted_base": ["Go pointer aliasing between the raw Spec, the Device and the per-call edit list modelled as indices into a heap of device-node records",
                      "lstat of host device nodes given to the model as data"],
     "assumptions": ["container paths inside one request are distinct (so the OCI device list is in node order)"],
